@@ -49,6 +49,33 @@ class Obligation:
         self.expect_violation = expect_violation
 
 
+class PathTimeout(Exception):
+    """the code under test did not return within PATH_TIMEOUT_S (reported as a hang)"""
+
+
+PATH_TIMEOUT_S = float(os.environ.get("VERIF_PATH_TIMEOUT", "40"))
+
+
+def _alarm_handler(signum, frame):
+    raise PathTimeout(f"no result within {PATH_TIMEOUT_S:.0f} s: the code under test appears to hang")
+
+
+@contextlib.contextmanager
+def watchdog():
+    import signal
+    try:
+        old = signal.signal(signal.SIGALRM, _alarm_handler)
+    except ValueError:      # not in the main thread
+        yield
+        return
+    signal.setitimer(signal.ITIMER_REAL, PATH_TIMEOUT_S)
+    try:
+        yield
+    finally:
+        signal.setitimer(signal.ITIMER_REAL, 0)
+        signal.signal(signal.SIGALRM, old)
+
+
 OBLIGATIONS: list[Obligation] = []
 KNOWN: list[dict] = []      # known findings for the property under check
 SEED = 0
@@ -129,8 +156,9 @@ def native_run(ob, model):
     e = NativeEngine(model)
     core.ENG = e
     try:
-        args = ob.setup(e)
-        obs = ob.run(e, *args)
+        with watchdog():
+            args = ob.setup(e)
+            obs = ob.run(e, *args)
         return "ok", normalise_obs(obs)
     except Violation as v:
         return "violation", str(v)
@@ -150,8 +178,9 @@ def run_path(ob, prefix, timeout_ms, twin=False):
     try:
         with ob.patches():
             try:
-                args = ob.setup(eng)
-                obs = ob.run(eng, *args)
+                with watchdog():
+                    args = ob.setup(eng)
+                    obs = ob.run(eng, *args)
                 res["status"] = "ok"
                 res["obs"] = obs
             except Violation as v:
